@@ -352,6 +352,7 @@ macro_rules! ex_units_vec {
             };
             let mut pp = $m::pp();
             pp.max_tx_ex_units = exu(kani::any(), kani::any());
+            pp.max_block_ex_units = exu(kani::any(), kani::any()); // independent of the per-transaction limit
             let r = $hook(&tx, &pp);
             let over = sm > pp.max_tx_ex_units.mem as u128 || ss > pp.max_tx_ex_units.steps as u128;
             kani::cover!(over, "R7 violated");
@@ -392,6 +393,7 @@ fn c38_q_ex_units_conway() {
     };
     let mut pp = co::pp();
     pp.max_tx_ex_units = exu(kani::any(), kani::any());
+            pp.max_block_ex_units = exu(kani::any(), kani::any()); // independent of the per-transaction limit
     let r = conway::verif_hooks::check_tx_ex_units(&tx, &pp);
     let over = sm > pp.max_tx_ex_units.mem || ss > pp.max_tx_ex_units.steps;
     kani::cover!(over, "R7 violated");
